@@ -318,7 +318,11 @@ func init() {
 		Explanation: "refavro's writer knows nothing of the library; E3 FillFromDatum states what each datum must become in each target. Integers are occasionally drawn just outside the hinted width: the read must then fail and the record must not be delivered.",
 		Assumptions: []string{"double->float32 is only demanded for doubles exactly representable as float32", "enum and named-type references are outside the stated subset"},
 		Modes: func(tier string) []core.Mode {
-			return []core.Mode{{Name: "plain", Variant: "plain"}, {Name: "checkptr", Variant: "checkptr", CaseDiv: 3}}
+			m := []core.Mode{{Name: "plain", Variant: "plain"}, {Name: "checkptr", Variant: "checkptr", CaseDiv: 3}}
+			if tier == "thorough" {
+				m = append(m, core.Mode{Name: "asan", Variant: "asan", CaseDiv: 8, NoRlimit: true}, core.Mode{Name: "go126", Variant: "go126", CaseDiv: 4})
+			}
+			return m
 		},
 		NumCases: func(c *core.Ctx) int { return c.Pick(16000, 400000) },
 		Run:      runC03,
@@ -338,7 +342,11 @@ func init() {
 			"distinct_nontrivial = distinct (schema shape, projected target shape) pairs",
 		Explanation: "Absolute oracle: surviving fields must equal the model's expectation for the datum, added fields must be zero, the file must be consumed without error. Byte accounting: the exact encoded length of each record is known from the reference encoder, so over- or under-consumption by any Skip path (including size-prefixed blocks) is visible as a wrong remainder.",
 		Modes: func(tier string) []core.Mode {
-			return []core.Mode{{Name: "plain", Variant: "plain"}, {Name: "checkptr", Variant: "checkptr", CaseDiv: 3}}
+			m := []core.Mode{{Name: "plain", Variant: "plain"}, {Name: "checkptr", Variant: "checkptr", CaseDiv: 3}}
+			if tier == "thorough" {
+				m = append(m, core.Mode{Name: "asan", Variant: "asan", CaseDiv: 8, NoRlimit: true}, core.Mode{Name: "go126", Variant: "go126", CaseDiv: 4})
+			}
+			return m
 		},
 		NumCases: func(c *core.Ctx) int { return c.Pick(10000, 240000) },
 		Run:      runC04,
